@@ -7,7 +7,8 @@ import lib
 from props import hdrjs
 
 THEOREM = 'C07_names / C07_width_select / C07_header_matches_rows / C07_headerless (Props/C07.v)'
-NAMES = ['id', 'name', 'x1', 'Val', '_u', "driver's", 'q"r', 'two words', 'Last, First']      # incl. names only a["..."] / a['...'] can spell
+NAMES = ['id', 'name', 'x1', 'Val', '_u', "driver's", 'q"r', 'two words', 'Last, First',      # incl. names only a["..."] / a['...'] can spell
+         'docs\\new', 'tab\there', 'two\nlines', 'c\rr', 'back\\', 'q\\"r\'s', '\\t']      # backslashes, and characters the engines spell with an escape (finding D24)
 USER_VARS = ['a1c', 'b2b', 'a3_total', 'zz9', 'NRx']
 INIT_PY = '\n'.join('%s = %d' % (v, i + 7) for i, v in enumerate(USER_VARS))
 INIT_JS = ' '.join('var %s = %d;' % (v, i + 7) for i, v in enumerate(USER_VARS))
@@ -32,7 +33,7 @@ def gen_item(r, cx, lang_pair=True):
     if x < 0.4 and hdr:
         nm = r.choice(hdr)
         q = r.choice(['"', "'"])
-        esc = nm.replace('\\', '\\\\').replace(q, '\\' + q)          # the name as a string literal of either language
+        esc = nm.replace('\\', '\\\\').replace('\n', '\\n').replace('\r', '\\r').replace('\t', '\\t').replace(q, '\\' + q)          # the name as a string literal of either language
         txt = '%s[%s%s%s]' % (t, q, esc, q)
         return '(2 %d %s)' % (tn, lib.enc(nm)), txt, txt
     if x < 0.48:
@@ -106,8 +107,8 @@ def gen_case0(r):
             opts = ['a%d' % (i + 1), 'a[%d]' % (i + 1)]
             if nm is not None and nm.replace('_', 'a').isalnum():
                 opts.append('a.%s' % nm)
-            if nm is not None and '"' not in nm and '\\' not in nm:
-                opts.append('a["%s"]' % nm)
+            if nm is not None:
+                opts.append('a["%s"]' % nm.replace('\\', '\\\\').replace('\n', '\\n').replace('\r', '\\r').replace('\t', '\\t').replace('"', '\\"'))
             return r.choice(opts)
         q = 'select %s* except %s' % ('distinct count ' if dcx else r.choice(['', 'distinct ', 'top 2 ']), ', '.join(spell(i) for i in mentions))
         return {'q': q, 'qjs': q, 'A': A, 'B': B, 'hdrA': hdrA, 'hdrB': hdrB, 'hq': '(1 (%s) %d)' % (' '.join(map(str, idxs)), 1 if dcx else 0), 'kind': 'except'}
